@@ -140,7 +140,7 @@ def firstBadPoint (m : Int) (A B R : Polygon) (op : Op) (pts : List Pt) : Option
 structure Dy where
   m : Int
   e : Int
-deriving Repr
+deriving DecidableEq, Repr
 
 /-- exact value of an IEEE-754 binary bit pattern with `eb` exponent bits and `mb` fraction bits;
     `none` for infinities and NaN -/
